@@ -136,13 +136,17 @@ func newParentController(
 		}
 	}()
 	for _, child := range cc.Spec.ChildResources {
-		childInformer, err := dynInformers.Resource(child.APIVersion, child.Resource)
-		if err != nil {
-			return nil, fmt.Errorf("can't create informer for child resource: %w", err)
-		}
 		groupVersion, err := schema.ParseGroupVersion(child.APIVersion)
 		if err != nil {
 			return nil, fmt.Errorf("can't parse child resource groupVersion: %w", err)
+		}
+		if childInformers.Get(groupVersion.WithResource(child.Resource)) != nil {
+			// Listed twice: one subscription is enough (a second one would never be closed).
+			continue
+		}
+		childInformer, err := dynInformers.Resource(child.APIVersion, child.Resource)
+		if err != nil {
+			return nil, fmt.Errorf("can't create informer for child resource: %w", err)
 		}
 		childInformers.Set(groupVersion.WithResource(child.Resource), childInformer)
 	}
